@@ -3,6 +3,7 @@ package kit
 import (
 	"fmt"
 	"go/token"
+	"go/types"
 	"strings"
 
 	"golang.org/x/tools/go/ssa"
@@ -12,6 +13,39 @@ import (
 // calls and nested closures, restricted to packages accepted by inPkg.
 // (CHA is deliberately not used: io.Writer.Write would drag in the whole repo.)
 func (p *Prog) Scope(roots []*ssa.Function, inPkg func(rel string) bool) []*ssa.Function {
+	return p.scope(roots, inPkg, false)
+}
+
+// ScopeIfaces is Scope plus interface calls resolved to the methods of repo
+// types (in accepted packages) that implement the interface.
+func (p *Prog) ScopeIfaces(roots []*ssa.Function, inPkg func(rel string) bool) []*ssa.Function {
+	return p.scope(roots, inPkg, true)
+}
+
+// Implementations returns the repo methods an interface call may dispatch to.
+func (p *Prog) Implementations(c ssa.CallInstruction) []*ssa.Function {
+	cc := c.Common()
+	if !cc.IsInvoke() {
+		return nil
+	}
+	iface, ok := cc.Value.Type().Underlying().(*types.Interface)
+	if !ok {
+		return nil
+	}
+	var out []*ssa.Function
+	for _, fn := range p.Funcs {
+		if fn.Signature.Recv() == nil || fn.Name() != cc.Method.Name() {
+			continue
+		}
+		rt := fn.Signature.Recv().Type()
+		if types.Implements(rt, iface) {
+			out = append(out, fn)
+		}
+	}
+	return out
+}
+
+func (p *Prog) scope(roots []*ssa.Function, inPkg func(rel string) bool, ifaces bool) []*ssa.Function {
 	seen := map[*ssa.Function]bool{}
 	var order []*ssa.Function
 	var visit func(fn *ssa.Function)
@@ -26,6 +60,11 @@ func (p *Prog) Scope(roots []*ssa.Function, inPkg func(rel string) bool) []*ssa.
 		}
 		for _, c := range CallsIn(fn, nil) {
 			visit(StaticCallee(c))
+			if ifaces {
+				for _, impl := range p.Implementations(c) {
+					visit(impl)
+				}
+			}
 			// function values passed as arguments (method values, named funcs)
 			for _, a := range c.Common().Args {
 				switch x := a.(type) {
